@@ -272,6 +272,34 @@ func c12One(r *fw.R, d c12Desc, origin string, hasOrigin bool, verdict int, rel,
 	if hasOrigin {
 		req.Header.Set("Origin", origin)
 	}
+	// Every eighth request also carries headers a proxy (or an attacker) may add. Only Host and Origin
+	// count: headers naming the origin's own host must not get a foreign origin in, headers naming
+	// another host must not keep an authorised origin out.
+	if hasOrigin && verdict != -1 && (len(origin)+len(d.Host)+len(d.Patterns))%8 == 0 {
+		named := "evil.example.net"
+		if verdict == 0 {
+			named = origin
+			if i := strings.Index(named, "://"); i >= 0 {
+				named = named[i+3:]
+			}
+			if i := strings.IndexAny(named, "/?#"); i >= 0 {
+				named = named[:i]
+			}
+			if i := strings.LastIndex(named, "@"); i >= 0 {
+				named = named[i+1:]
+			}
+		}
+		if named != "" {
+			req.Header.Set("X-Forwarded-Host", named)
+			req.Header.Set("X-Forwarded-Server", named)
+			req.Header.Set("X-Original-Host", named)
+			req.Header.Set("X-Host", named)
+			req.Header.Set("Forwarded", "for=10.0.0.1;host="+named+";proto=https")
+			req.Header.Set("Referer", "https://"+named+"/page")
+			r.Count("requests_with_decoy_host_headers", 1)
+			where += "/decoy-headers"
+		}
+	}
 	libEnd, peerEnd := xport.Pair(xport.Plan{NoTap: true}, xport.Plan{NoTap: true})
 	rec := &attach.Recorder{Conn: libEnd}
 	c, err := websocket.Accept(rec, req, &websocket.AcceptOptions{OriginPatterns: d.Patterns, InsecureSkipVerify: d.Skip})
